@@ -17,7 +17,9 @@ TRUSTED_BASE = ["harness/rt/vrt.c arena (one mapping per allocation, PROT_NONE a
 def run(tier, seed):
     res = {"violations": [], "broken": [], "coverage": {}}
     tie = prop_mu_family.mu_tie(res, tier, seed, 200, 2000)
-    specs = [("refcount", {}, 3000, 60000), ("refcount", {"VRT_RMODE": 1}, 1000, 20000), ("refcount", {"VRT_MUWAIT": 1}, 3000, 60000), ("waitn_mix", {}, 3000, 60000),
+    specs = [("refcount", {}, 3000, 60000), ("refcount", {"VRT_RMODE": 1}, 1000, 20000), ("refcount", {"VRT_MUWAIT": 1}, 3000, 60000), ("refcount", {"VRT_MUWAIT": 1, "VRT_PLAINPM": 30}, 1500, 30000),
+             ("waitn_mix", {"VRT_PLAINPM": 40}, 2000, 60000), ("waitn_mix", {"VRT_AIM": 60}, 4000, 60000), ("waitn_mix", {"VRT_AIM": 60, "VRT_KIND": 1}, 4000, 60000),
+             ("waitn_mix", {"VRT_AIM": 60, "VRT_KIND": 2}, 2000, 30000), ("cancel_mix", {"VRT_AIM": 60}, 1500, 30000), ("cv_mix", {"VRT_MODE": 3, "VRT_PLAINPM": 40}, 1000, 20000), ("waitn_mix", {}, 3000, 60000),
              ("cv_mix", {"VRT_MODE": 0}, 1000, 20000), ("note_mix", {"VRT_FAMILY": 1}, 800, 15000)]
     cov = scen_common.run_scenarios(res, specs, tier, seed, scen_common.MEMORY | scen_common.CRASHES)
     cov["rule"] = ("refcount: 2..4 users of a malloc'ed {mutex, refs} run lock; last = --refs == 0; unlock; if last free (with extra lock/rlock "
